@@ -360,7 +360,7 @@ def c10(res, tier, seed):
                         spec.append({"mk": [r.choice([0, 3, 7]), 1], "filler": 4})
                     f, data, sizes = sg.make_file(100 * hi + k + 1, "text", spec, r.random() < 0.5, 2)
                 outcome = r.choice(["ok", "ok", "abort", "error", "timeout", "notready-resume", "notready-abandon"])
-                mode = "blocks" if len(sizes) > 1 or outcome.startswith("notready") else r.choice(["mem", "blocks", "file", "fd"])
+                mode = r.choice(["blocks", "blocks", "blocksnofs"]) if len(sizes) > 1 or outcome.startswith("notready") else r.choice(["mem", "blocks", "blocksnofs", "file", "fd"])
                 plan, nr, to, maxcalls = [], [], False, 100
                 if outcome in ("abort", "error"):
                     plan = [(r.randint(0, nrules + 3), outcome[0])]
